@@ -235,7 +235,19 @@ func genRouter(tp *core.Tape, ip netip.Addr) *storage.StoredRouter {
 			// clock that ran ahead, or was copied from another machine)
 			u = time.Now().Add(time.Duration(1+tp.Intn(1<<30)) * time.Millisecond)
 		}
+		switch tp.Intn(24) {
+		case 0:
+			// present, but the zero time: "stamped, value zero" is not "never used"
+			u = time.Time{}
+		case 1:
+			u = time.Unix(0, 0).UTC()
+		case 2:
+			u = time.Unix(int64(tp.Intn(1<<31)), int64(tp.Intn(1_000_000_000))).UTC() // nanoseconds
+		}
 		r.UsedAt = &u
+	}
+	if tp.Chance(1, 16) {
+		r.CreatedAt = []time.Time{time.Unix(0, 0).UTC(), time.Unix(int64(tp.Intn(1<<31)), int64(tp.Intn(1_000_000_000))).UTC(), time.Date(9999, 12, 31, 23, 59, 59, 0, time.UTC)}[tp.Intn(3)]
 	}
 	return r
 }
